@@ -314,6 +314,22 @@ def flushCommit (m : Mem) (name : Nat) (size : Nat) : Option (Mem × List FsOp) 
         let pend := match fl.builder with | some (n, _) => f.pending.filter (· ≠ n) | none => f.pending
         some (m1.setFam { f with pending := pend, flusher := none }, closeOps ++ ops)
 
+/-- storeFlusher.Commit when the table builder's Close fails (the error of the final buffer flush /
+file close reaches Commit through storeBuilder.Close's named result): Commit returns the error BEFORE
+anything is added to the edit log — no record is appended, no version changes; the deferred function
+drops the pending output. The table file stays as it is (partial): an orphan for the next cleanup.
+Only defined for a flusher that has a table. -/
+def flushFail (m : Mem) (name : Nat) : Option (Mem × List FsOp) :=
+  match m.fam? name with
+  | none => none
+  | some f =>
+    match f.flusher with
+    | none => none
+    | some fl =>
+      match fl.builder with
+      | none => none
+      | some (n, _) => some (m.setFam { f with pending := f.pending.filter (· ≠ n), flusher := none }, [])
+
 /-- the merger registered by the harness: values of one key are added. -/
 def mergeInto (acc : List (Nat × Nat)) (kv : Nat × Nat) : List (Nat × Nat) :=
   match acc with
